@@ -409,7 +409,7 @@ func (ps *PathSum) callStatic(s *psState, f *psFrame, x ssa.Instruction, callee 
 	}
 	if kind, ok := ps.asEvents[o]; ok {
 		res := ps.sym("res:" + kind + "#")
-		ps.emit(s, f, pos, kind, append([]string{res}, args...)...)
+		ps.emit(s, f, pos, kind, append(append([]string{res}, args...), ps.eventExtra[o]...)...)
 		nres := o.Signature.Results().Len()
 		if nres > 1 {
 			for i := 0; i < nres; i++ {
